@@ -42,7 +42,10 @@ RULE_ADDED = (
               'Round 10: half of the Ledger onboardings find something else after the re-connec'
               'tion (blank device, signer, heartbeat app, wrong echo): no PIN goes to it. '
               ' '
-              'Round 11: PINs in which characters repeat. ')
+              'Round 11: PINs in which characters repeat. '
+              ' '
+              'Round 13: onboard cells on an onboarded device that answers the onboard query wi'
+              'th an error status. ')
 RULE = RULE + " " + RULE_ADDED.strip()
 ASSUMPTIONS = [
     "simulated devices (pv/simdev) trusted; operator input is scripted, an exhausted script "
@@ -222,6 +225,11 @@ def run_cell(acc, cell, tmpdir, seed):
     cmd, plat, mode, onb, echo, pk, src, anyp, ans, flag = cell
     rng = random.Random(seed)
     gd, dev = make_device(rng, plat, mode, onb, echo)
+    if onb and cmd == "onboard" and rng.random() < 0.3:
+        # an onboarded device that answers the "are you onboarded?" query with an error
+        # status: not having heard "yes" is not having heard "no"
+        dev.cfg["onboard_sw"] = rng.choice([0x6E00, 0x6985, 0x6800, 0x6A99, 0x6D00, 0x6F00])
+        acc.count("onboard_cells_on_an_onboarded_device_whose_onboard_query_fails")
     echo = echo is True      # any other value is some kind of wrong echo
     pin = PINS[pk]
     case = {"cell": list(cell), "seed": seed}
